@@ -101,14 +101,14 @@ impl UpdateIntent {
     fn has_label_stack(&self) -> bool {
         self.entries.iter().any(|e| mkmsg::nlri_has_label_stack(&e.nlri))
     }
-    /// `<family>:<kind>[:label-stack]`
+    /// `<family>:<kind>`, or `label-stack:<kind>` for NLRI with more than one label
+    /// (one root cause whatever the family)
     pub fn shape(&self) -> String {
-        format!(
-            "{}:{}{}",
-            mkmsg::family_name(self.family),
-            self.kind.name(),
-            if self.has_label_stack() { ":label-stack" } else { "" }
-        )
+        if self.has_label_stack() {
+            format!("label-stack:{}", self.kind.name())
+        } else {
+            format!("{}:{}", mkmsg::family_name(self.family), self.kind.name())
+        }
     }
 }
 
@@ -248,15 +248,22 @@ pub fn compare_update(dec: &Decoded, it: &UpdateIntent) -> Vec<Finding> {
                 nh_bad = true;
                 let fam = mkmsg::family_name(it.family);
                 if nh.is_none() {
+                    // an IPv6 next hop of an AFI-1 family (RFC 8950 session): one root cause for v6 / v6+ll
+                    let cls = if it.family.afi() == Family::AFI_IP && !matches!(it.nexthop, Some(Nexthop::V4(_)) | None) { "ipv6-nexthop" } else { nh_class(&it.nexthop) };
                     vs.push(finding(
                         "nexthop-lost",
-                        format!("{fam}:{}", nh_class(&it.nexthop)),
+                        format!("{fam}:{cls}"),
                         format!("monitored next hop {:?}; the record's UPDATE carries no next hop (parser reports attribute errors {:?})", it.nexthop, dec.err_attr_codes),
                     ));
                 } else {
+                    let padded = match (&it.nexthop, nh) {
+                        (Some(Nexthop::V4(a)), Some(Nexthop::V6(b))) => b.octets()[..4] == a.octets() && b.octets()[4..].iter().all(|x| *x == 0),
+                        _ => false,
+                    };
+                    let shape = if padded { "v4->v6:zero-padded".to_string() } else { format!("{fam}:{}->{}", nh_class(&it.nexthop), nh_class(nh)) };
                     vs.push(finding(
                         "nexthop-differs",
-                        format!("{fam}:{}->{}", nh_class(&it.nexthop), nh_class(nh)),
+                        shape,
                         format!("monitored next hop {:?}; the record's UPDATE decodes to {:?}", it.nexthop, nh),
                     ));
                 }
@@ -267,7 +274,8 @@ pub fn compare_update(dec: &Decoded, it: &UpdateIntent) -> Vec<Finding> {
     if multiset(&want) != multiset(got) || !other.is_empty() {
         let wire_attrs = mkmsg::attrs_wire_len(&it.attrs);
         // cause class: attributes alone exceed what the embedded codec puts into a frame
-        let shape2 = if is_reach && wire_attrs + 23 + 7 > 4096 && got.is_empty() { format!("{}:attrs-exceed-4096", it.kind.name()) } else { shape.clone() };
+        // (with a margin for the frame header, the MP_REACH_NLRI header and one NLRI)
+        let shape2 = if is_reach && wire_attrs >= 3800 && got.is_empty() { "reach:no-room-beside-attributes".to_string() } else { shape.clone() };
         let (nw, ng) = (want.len(), got.len());
         let lost = multiset(&want).iter().filter(|w| !multiset(got).contains(w)).count();
         vs.push(finding(
@@ -379,30 +387,76 @@ pub fn check_per_peer(m: &wire::BmpMsg, h: &PeerHdrIntent) -> Vec<Finding> {
     vs
 }
 
-/// RFC 7854 §4.6 Route Monitoring.
+/// Split the bytes ONE encoder call produced into BMP messages by the common
+/// header's length field (RFC 7854 §4.1).  An encoder may legitimately answer one
+/// monitored UPDATE with several Route Monitoring messages.
+pub fn split_bmp(bytes: &[u8]) -> Result<Vec<&[u8]>, Finding> {
+    let mut out = Vec::new();
+    let mut p = 0usize;
+    while p < bytes.len() {
+        let rest = &bytes[p..];
+        if rest.len() < 6 {
+            return Err(finding("length-mismatch", "trailing-bytes", format!("{} byte(s) after the last complete message", rest.len())));
+        }
+        let t = bmp_type_name(rest[5]);
+        let len = u32::from_be_bytes([rest[1], rest[2], rest[3], rest[4]]) as usize;
+        if rest[0] != 3 {
+            return Err(finding("length-mismatch", if out.is_empty() { "version" } else { "trailing-bytes" }, format!("offset {p}: no BMP message starts here (version byte {}); the length field before it does not delimit the message", rest[0])));
+        }
+        if len < 6 || len > rest.len() {
+            return Err(finding("length-mismatch", t, format!("common header length {len}, {} byte(s) were emitted from the start of this message", rest.len())));
+        }
+        out.push(&rest[..len]);
+        p += len;
+    }
+    Ok(out)
+}
+
+/// RFC 7854 §4.6 Route Monitoring: `bytes` = everything the encoder emitted for ONE
+/// monitored UPDATE (one message, or several if the encoder splits into records).
 pub fn check_route_monitoring(bytes: &[u8], h: &PeerHdrIntent, it: &UpdateIntent) -> Vec<Finding> {
-    let m = match bmp_read(bytes) {
-        Ok(m) => m,
+    let recs = match split_bmp(bytes) {
+        Ok(r) => r,
         Err(f) => return vec![f],
     };
-    let mut vs = check_per_peer(&m, h);
-    let wire::BmpBody::RouteMonitoring { pdus } = &m.body else {
-        vs.push(finding("wrong-message-type", bmp_type_name(m.msg_type), "Route Monitoring intended"));
-        return vs;
-    };
-    if pdus.len() != 1 {
-        vs.push(finding(
-            "multiple-pdus-in-record",
-            "",
-            format!(
-                "RFC 7854 §4.6: one Route Monitoring message carries ONE BGP UPDATE PDU; this {}-byte message carries {} ({} {} NLRI of {} monitored, attribute block {} bytes, add-path={})",
-                bytes.len(), pdus.len(), it.entries.len(), it.kind.name(), mkmsg::family_name(it.family), mkmsg::attrs_wire_len(&it.attrs), it.addpath
-            ),
-        ));
+    if recs.is_empty() {
+        return vec![finding("record-missing", it.shape(), "nothing was emitted")];
     }
-    let two_byte = m.per_peer.as_ref().is_some_and(|p| p.a_flag());
-    let slices: Vec<&[u8]> = pdus.iter().map(|s| s.of(bytes)).collect();
-    match decode_pdus(&slices, it.family, it.addpath, two_byte, &it.shape()) {
+    let mut vs: Vec<Finding> = Vec::new();
+    let mut all: Vec<&[u8]> = Vec::new();
+    let mut two_byte = false;
+    let mut multi = false;
+    for rec in &recs {
+        let m = match bmp_read(rec) {
+            Ok(m) => m,
+            Err(f) => return vec![f],
+        };
+        for f in check_per_peer(&m, h) {
+            if !vs.iter().any(|x: &Finding| x.clause == f.clause && x.shape == f.shape) {
+                vs.push(f);
+            }
+        }
+        let wire::BmpBody::RouteMonitoring { pdus } = &m.body else {
+            vs.push(finding("wrong-message-type", bmp_type_name(m.msg_type), "Route Monitoring intended"));
+            return vs;
+        };
+        if pdus.len() != 1 && !multi {
+            multi = true;
+            vs.push(finding(
+                "multiple-pdus-in-record",
+                "",
+                format!(
+                    "RFC 7854 §4.6: one Route Monitoring message carries ONE BGP UPDATE PDU; this {}-byte message carries {} ({} {} NLRI of {} monitored, attribute block {} bytes, add-path={})",
+                    rec.len(), pdus.len(), it.entries.len(), it.kind.name(), mkmsg::family_name(it.family), mkmsg::attrs_wire_len(&it.attrs), it.addpath
+                ),
+            ));
+        }
+        two_byte = m.per_peer.as_ref().is_some_and(|p| p.a_flag());
+        for sp in pdus {
+            all.push(sp.of(rec));
+        }
+    }
+    match decode_pdus(&all, it.family, it.addpath, two_byte, &it.shape()) {
         Err(f) => vs.push(f),
         Ok(dec) => vs.extend(compare_update(&dec, it)),
     }
@@ -619,17 +673,50 @@ fn bgp4mp_alt(bytes: &[u8], aw: usize, local_present: bool) -> Option<usize> {
     Some(frames.len())
 }
 
-/// RFC 6396 §4.4.2/3 + RFC 8050 §3 BGP4MP message record carrying an UPDATE.
-/// `it` = None: the body is some other BGP message given as `other`.
-pub fn check_bgp4mp(bytes: &[u8], mp: &MpIntent, it: Option<&UpdateIntent>, other: Option<&Message>) -> Vec<Finding> {
+/// Split the bytes one encoder call produced into MRT records (RFC 6396 §2).
+pub fn split_mrt(bytes: &[u8]) -> Result<Vec<&[u8]>, Finding> {
+    let mut out = Vec::new();
+    let mut p = 0usize;
+    while p < bytes.len() {
+        let rest = &bytes[p..];
+        if rest.len() < 12 {
+            return Err(finding("length-mismatch", "trailing-bytes", format!("{} byte(s) after the last complete record", rest.len())));
+        }
+        let t = u16::from_be_bytes([rest[4], rest[5]]);
+        let st = u16::from_be_bytes([rest[6], rest[7]]);
+        let len = u32::from_be_bytes([rest[8], rest[9], rest[10], rest[11]]) as usize;
+        if len > rest.len() - 12 {
+            return Err(finding("length-mismatch", format!("{t}/{st}"), format!("header length {len}, {} bytes follow the header", rest.len() - 12)));
+        }
+        if !out.is_empty() && !matches!(t, 12 | 13 | 16 | 17) {
+            return Err(finding("length-mismatch", "trailing-bytes", format!("offset {p}: no MRT record of a known type starts here (type {t}); the length field before it does not delimit the record")));
+        }
+        out.push(&rest[..12 + len]);
+        p += 12 + len;
+    }
+    Ok(out)
+}
+
+/// What one BGP4MP record yields for the content comparison.
+struct MpRead<'a> {
+    pdus: Vec<&'a [u8]>,
+    addpath: bool,
+    as4: bool,
+}
+
+/// One BGP4MP record: header clauses; Ok = the embedded PDU(s).
+fn check_bgp4mp_record<'a>(bytes: &'a [u8], mp: &MpIntent, addpath: bool, vs: &mut Vec<Finding>) -> Option<MpRead<'a>> {
     let (t, st) = match mrt_len_check(bytes) {
         Ok(x) => x,
-        Err(f) => return vec![f],
+        Err(f) => {
+            vs.push(f);
+            return None;
+        }
     };
     if t != wire::MRT_BGP4MP && t != wire::MRT_BGP4MP_ET {
-        return vec![finding("wrong-record-type", format!("{t}/{st}"), "BGP4MP intended")];
+        vs.push(finding("wrong-record-type", format!("{t}/{st}"), "BGP4MP intended"));
+        return None;
     }
-    let addpath = it.is_some_and(|i| i.addpath);
     let fam_mix = format!("remote-{}:local-{}", if mp.remote_addr.is_ipv6() { "v6" } else { "v4" }, if mp.local_addr.is_ipv6() { "v6" } else { "v4" });
     let rec = match wire::read_mrt(bytes) {
         Ok(r) => r,
@@ -638,54 +725,51 @@ pub fn check_bgp4mp(bytes: &[u8], mp: &MpIntent, it: Option<&UpdateIntent>, othe
             let rfc_aw = if matches!(st, 4 | 5 | 7 | 9 | 11) { 4 } else { 2 };
             let other_aw = 6 - rfc_aw;
             if let Some(n) = bgp4mp_alt(bytes, other_aw, true) {
-                return vec![finding(
+                vs.push(finding(
                     "subtype-as-width",
                     format!("subtype{st}"),
                     format!("RFC 6396 §4.4 / RFC 8050 §3: subtype {st} has {rfc_aw}-byte AS fields, but the record only reads cleanly ({n} BGP frame(s)) with {other_aw}-byte AS fields; RFC reader: {e}"),
-                )];
+                ));
+                return None;
             }
             if let Some(n) = bgp4mp_alt(bytes, rfc_aw, false) {
-                return vec![finding(
+                vs.push(finding(
                     "afi-address-mismatch",
                     fam_mix,
                     format!("RFC 6396 §4.4.2: peer AND local address, both of the header's address family; the record only reads cleanly ({n} BGP frame(s)) when the local address is taken as absent (peer {} local {}); RFC reader: {e}", mp.remote_addr, mp.local_addr),
-                )];
+                ));
+                return None;
             }
             if let Some(n) = bgp4mp_alt(bytes, other_aw, false) {
-                return vec![finding(
+                vs.push(finding(
                     "subtype-as-width",
                     format!("subtype{st}"),
                     format!("subtype {st} has {rfc_aw}-byte AS fields but the record reads only with {other_aw}-byte AS fields (and without a local address, {n} frame(s)); RFC reader: {e}"),
-                )];
+                ));
+                return None;
             }
             if let Some(n) = bgp4mp_alt(bytes, rfc_aw, true) {
                 if n > 1 {
                     // header is fine, several BGP messages follow
-                    let mut vs = vec![finding(
+                    vs.push(finding(
                         "multiple-pdus-in-record",
                         "",
                         format!("RFC 6396 §4.4.2: a BGP4MP_MESSAGE record carries one BGP message; this {}-byte record carries {n}", bytes.len()),
-                    )];
-                    if let Some(it) = it {
-                        let p = 12 + 2 * rfc_aw + 4 + 2 * ip_bytes(&mp.remote_addr).len();
-                        let rest = &bytes[p..];
-                        let spans = wire::split_stream(rest).unwrap_or_default();
-                        let slices: Vec<&[u8]> = spans.iter().map(|s| s.of(rest)).collect();
-                        match decode_pdus(&slices, it.family, matches!(st, 8..=11), false, &it.shape()) {
-                            Err(f) => vs.push(f),
-                            Ok(dec) => vs.extend(compare_update(&dec, it)),
-                        }
-                    }
-                    return vs;
+                    ));
+                    let p = 12 + 2 * rfc_aw + 4 + 2 * ip_bytes(&mp.remote_addr).len();
+                    let rest = &bytes[p..];
+                    let spans = wire::split_stream(rest).unwrap_or_default();
+                    return Some(MpRead { pdus: spans.iter().map(|s| s.of(rest)).collect(), addpath: matches!(st, 8..=11), as4: rfc_aw == 4 });
                 }
             }
-            return vec![finding("malformed", format!("16/{st}"), format!("{e}; bytes={}", hexs(bytes)))];
+            vs.push(finding("malformed", format!("16/{st}"), format!("{e}; bytes={}", hexs(bytes))));
+            return None;
         }
     };
     let wire::MrtBody::Bgp4mpMessage { as4, addpath: rec_addpath, peer_as, local_as, afi, peer_ip, local_ip, pdu, local, .. } = &rec.body else {
-        return vec![finding("wrong-record-type", format!("{t}/{st}"), "BGP4MP message intended")];
+        vs.push(finding("wrong-record-type", format!("{t}/{st}"), "BGP4MP message intended"));
+        return None;
     };
-    let mut vs = Vec::new();
     // AS numbers as an RFC reader sees them
     let trunc = |a: u32| if *as4 { a } else { a & 0xffff };
     if *peer_as != trunc(mp.remote_as) || *local_as != trunc(mp.local_as) || (!*as4 && (mp.remote_as > 0xffff || mp.local_as > 0xffff)) {
@@ -705,26 +789,62 @@ pub fn check_bgp4mp(bytes: &[u8], mp: &MpIntent, it: Option<&UpdateIntent>, othe
     if *rec_addpath != addpath {
         vs.push(finding("subtype-addpath", format!("subtype{st}"), format!("subtype {st} states add-path={rec_addpath}; the monitored session has add-path={addpath}")));
     }
-    let pdu = pdu.of(bytes);
+    Some(MpRead { pdus: vec![pdu.of(bytes)], addpath: *rec_addpath, as4: *as4 })
+}
+
+/// RFC 6396 §4.4.2/3 + RFC 8050 §3: `bytes` = everything the encoder emitted for ONE
+/// monitored BGP message (one BGP4MP record, or several if the encoder splits).
+/// `it` = None: the body is some other BGP message given as `other`.
+pub fn check_bgp4mp(bytes: &[u8], mp: &MpIntent, it: Option<&UpdateIntent>, other: Option<&Message>) -> Vec<Finding> {
+    let recs = match split_mrt(bytes) {
+        Ok(r) => r,
+        Err(f) => return vec![f],
+    };
+    if recs.is_empty() {
+        return vec![finding("record-missing", "bgp4mp", "nothing was emitted")];
+    }
+    let addpath = it.is_some_and(|i| i.addpath);
+    let mut vs: Vec<Finding> = Vec::new();
+    let mut all: Vec<&[u8]> = Vec::new();
+    let (mut rec_addpath, mut as4) = (addpath, true);
+    for rec in &recs {
+        let mut one = Vec::new();
+        let r = check_bgp4mp_record(rec, mp, addpath, &mut one);
+        for f in one {
+            if !vs.iter().any(|x: &Finding| x.clause == f.clause && x.shape == f.shape) {
+                vs.push(f);
+            }
+        }
+        match r {
+            None => return vs,
+            Some(r) => {
+                rec_addpath = r.addpath;
+                as4 = r.as4;
+                all.extend(r.pdus);
+            }
+        }
+    }
     if let Some(it) = it {
-        match decode_pdus(&[pdu], it.family, *rec_addpath, !*as4, &it.shape()) {
+        match decode_pdus(&all, it.family, rec_addpath, !as4, &it.shape()) {
             Err(f) => vs.push(f),
             Ok(dec) => {
                 // compare under the RECORD's add-path statement
                 let mut it2 = it.clone();
-                it2.addpath = *rec_addpath && it.addpath;
+                it2.addpath = rec_addpath && it.addpath;
                 vs.extend(compare_update(&dec, &it2));
             }
         }
     } else if let Some(msg) = other {
+        let pdu = all.first().copied().unwrap_or(&[]);
         let mut c = PeerCodec::new();
-        let ok = match (guarded(|| c.parse_message(pdu)), msg) {
-            (Ok(Ok(ParsedMessage::Open(a))), Message::Open(b)) => open_eq(&a, b),
-            (Ok(Ok(ParsedMessage::Notification(a))), Message::Notification(b)) => a == *b,
-            (Ok(Ok(ParsedMessage::Keepalive)), Message::Keepalive) => true,
-            (Ok(Ok(ParsedMessage::RouteRefresh { family: a })), Message::RouteRefresh { family: b }) => a == *b,
-            _ => false,
-        };
+        let ok = all.len() == 1
+            && match (guarded(|| c.parse_message(pdu)), msg) {
+                (Ok(Ok(ParsedMessage::Open(a))), Message::Open(b)) => open_eq(&a, b),
+                (Ok(Ok(ParsedMessage::Notification(a))), Message::Notification(b)) => a == *b,
+                (Ok(Ok(ParsedMessage::Keepalive)), Message::Keepalive) => true,
+                (Ok(Ok(ParsedMessage::RouteRefresh { family: a })), Message::RouteRefresh { family: b }) => a == *b,
+                _ => false,
+            };
         if !ok {
             vs.push(finding("message-differs", "", format!("embedded BGP message does not parse back to the one monitored; pdu={}", hexs(pdu))));
         }
@@ -880,7 +1000,8 @@ pub fn check_rib(bytes: &[u8], seq: u32, prefix: &Nlri, entries: &[RibEntryInten
             }
         }
         if let Some(e) = nh_err {
-            vs.push(finding("nexthop-malformed", format!("{fam}:{}", nh_class(&w.nexthop)), format!("entry {i}: {e}; monitored next hop {:?}", w.nexthop)));
+            let cls = if want_afi == 1 && !matches!(w.nexthop, Some(Nexthop::V4(_)) | None) { "ipv6-nexthop" } else { nh_class(&w.nexthop) };
+            vs.push(finding("nexthop-malformed", format!("{fam}:{cls}"), format!("entry {i}: {e}; monitored next hop {:?}", w.nexthop)));
         } else if nh != w.nexthop {
             let cl = if nh.is_none() { "nexthop-lost" } else { "nexthop-differs" };
             vs.push(finding(cl, format!("{fam}:{}", nh_class(&w.nexthop)), format!("entry {i}: monitored next hop {:?}, record carries {:?}", w.nexthop, nh)));
